@@ -215,7 +215,7 @@ def materialise(p, rc):
             idx = np.nonzero(psd > 0)[0] if len(psd) + 1 == len(b) else []
             cMax = float(b[idx.max() + 1]) * r.uniform(1.0, 2.0) if len(idx) else pmax
         elif cmaxm == 'small':
-            cMax = cMin * r.uniform(1.0, 9.0)
+            cMax = cMin * r.uniform(1.0, 9.0) if cMin > 0 else pmax * r.uniform(0.2, 1.0)
         else:  # zerogrid
             cMin = 0.0; cMax = 0.0
         if binsm is None or isinstance(binsm, int):
@@ -461,7 +461,7 @@ def run_impl(init, recipes, res=None):
             break
         post = snapshot(p)
         if not finite_state(post):
-            steps.append(dict(op=op, kind='S', snap=post, ret=ret, pre=pre, valid=valid))
+            toks.pop()            # NaN/inf is outside the model: the sequence ends before this operation
             cut = 'non-finite'
             if valid:
                 violate('consistency:%s:non-finite' % t, 'non-finite grid or populations after %s in a stream that met all preconditions' % t, at=i)
